@@ -62,6 +62,11 @@ def harnesses(tier):
             hs.append({"id": "n2/%s-%s/%s" % (a, b, "same" if same else "diff"),
                        "params": {"status": [a, b], "strand": ["+", "-"] if j % 2 else ["-", "+"], "path": ["u", "s"], "tags": [j % 4, (j + 1) % 4],
                                   "same_read": same}, "timeout": 200})
+    for a, b in (("H1", "H1"), ("H2", "twice"), ("H1", "H2"), ("twice", "twice")):
+        hs.append({"id": "n2sel/%s-%s" % (a, b), "params": {"status": [a, b], "strand": ["+", "-"], "path": ["u", "s"], "tags": [0, 1], "pssel": True},
+                   "timeout": 300})
+    hs.append({"id": "n3sel/H1-H1-H2", "params": {"status": ["H1", "H1", "H2"], "strand": ["+", "-", "+"], "path": ["u", "s", "b"], "tags": [0, 1, 2], "pssel": True},
+               "timeout": 600})
     hs.append({"id": "n3/H1-absent-none", "params": {"status": ["H1", "absent", "none"], "strand": ["-", "+", "-"], "path": ["u", "b", "s"],
                                                       "tags": [0, 1, 3]}, "timeout": 300})
     hs.append({"id": "n0/empty", "params": {"status": [], "strand": [], "path": [], "tags": []}, "timeout": 60})
@@ -103,19 +108,26 @@ def fix_expectation(params, exp_first):
     return exp_first
 
 
+def pick2(x):
+    return 7 if x == 0 else 8
+
+
 def build(params):
     n = len(params["status"])
     args = []
     pre = []
     for i in range(n):
         args += [("c%d_%d" % (i, j), "int") for j in range(9)] + [("ps%d" % i, "int")]
-        pre.append(" and ".join("c%d_%d >= 0" % (i, j) for j in range(9)) + " and ps%d >= 0" % i)
+        pre.append(" and ".join("c%d_%d >= 0" % (i, j) for j in range(9)) + (" and 0 <= ps%d <= 1" if params.get("pssel") else " and ps%d >= 0") % i)
 
     def case(*a):
         P, GA = M["P"], M["GA"]
         e = stubs.env()
         cols = [a[10 * i:10 * i + 9] for i in range(n)]
         psn = [a[10 * i + 9] for i in range(n)]
+        if params.get("pssel"):
+            # phase-set numbers from a concrete menu (selected symbolically): equal numbers on different contigs included
+            psn = [pick2(x) for x in psn]
         tsv, exp = tsv_lines(params, psn)
         e.files["h.tsv"] = stubs.MFile("text", tsv, None)
         names = names_of(params)
@@ -198,6 +210,8 @@ def replay(params, model, wd):
     a = model["args"]
     cols = [a[10 * i:10 * i + 9] for i in range(n)]
     psn = [a[10 * i + 9] for i in range(n)]
+    if params.get("pssel"):
+        psn = [pick2(x) for x in psn]
     tsv, exp = tsv_lines(params, psn)
     names = names_of(params)
     lines = []
